@@ -16,8 +16,10 @@ package main
 // package initialisers are gone nothing else may change).  Compared are the
 // Circuit.Marshal bytes and the SSA listing.  A difference is classified
 // (see relation()) and reported through o.Fail with sig
-// c08-same-instance / c08-fresh-instance / c08-cross-process /
-// c08-alias-collision.
+// c08-same-instance / c08-fresh-instance / c08-cross-process.  Since /repo
+// 1e863b8 + 6aa1568 no difference is expected any more; the classes
+// (init-missing, inst-labels, init-order) name the repaired defects should
+// they come back.
 
 import (
 	"encoding/hex"
@@ -81,6 +83,9 @@ func (or *oracle) fail(sig, kind string, j *Job, mode, what, class string, a, b 
 	}
 	if ta != "" && tb != "" && ta != tb {
 		d["ssa_diff"] = firstDiff(ta, tb)
+		// the two differing SSA listings themselves (for the replay file)
+		d["ssa_listing_a"] = clipS(ta, 24000)
+		d["ssa_listing_b"] = clipS(tb, 24000)
 	}
 	if j.Gen != nil {
 		var libs []string
@@ -291,27 +296,6 @@ func (or *oracle) closureFacts(j *Job) (map[string]*pkgFacts, bool) {
 	return res, true
 }
 
-func captureStdout(f func()) string {
-	old := os.Stdout
-	tmp, err := os.CreateTemp("", "c08-stdout-*")
-	if err != nil {
-		f()
-		return ""
-	}
-	defer os.Remove(tmp.Name())
-	os.Stdout = tmp
-	func() {
-		defer func() { os.Stdout = old }()
-		f()
-	}()
-	tmp.Close()
-	b, _ := os.ReadFile(tmp.Name())
-	if len(b) > 8<<20 {
-		b = b[:8<<20]
-	}
-	return string(b)
-}
-
 func pkgSpec(pf map[string]*pkgFacts, order map[string][]string) string {
 	var names []string
 	for n := range pf {
@@ -342,28 +326,35 @@ func labelsWithAnon(r *Res) string {
 	return plainList(l)
 }
 
-// initOp compiles the program verbosely on a fresh instance; the
-// "Initializing <pkg>" lines give the pre-order in which Package.Init
-// visited the packages, from which the order the Imports maps were handed
-// over is reconstructed (imports of a package ordered by first appearance in
-// the pre-order; the position of an already initialised import has no
-// effect).  The Lean Init model must then produce the init-block labels (and
-// first anonymous-value numbers) of the real SSA listing.
+// reversedOrder hands every package's import aliases to the model in
+// REVERSE sorted order: the hand-over order of the Imports maps is not
+// observable and, since Package.Init iterates pkg.SortedImports(), must not
+// matter; the model has to sort them itself (byte-wise, as sort.Strings).
+func reversedOrder(pf map[string]*pkgFacts) map[string][]string {
+	order := map[string][]string{}
+	for name, p := range pf {
+		imps := append([]string{}, p.imports...)
+		sort.Sort(sort.Reverse(sort.StringSlice(imps)))
+		order[name] = imps
+	}
+	return order
+}
+
+// initOp compiles the program on a fresh instance.  The Lean Init model must
+// produce the init-block labels (and first anonymous-value numbers) of the
+// real SSA listing from the import graph alone.
 func (or *oracle) initOp(j *Job) {
 	pf, ok := or.closureFacts(j)
 	if !ok {
 		or.o.Count("init_skipped_closure")
 		return
 	}
-	p := newParams(j)
-	p.Verbose = true
-	var r *Res
-	log := captureStdout(func() { r = compileOn(compiler.New(p), p, j) })
+	r := compileFresh(j)
 	if r.Err != "" {
 		or.o.Count("init_compile_error")
 		return
 	}
-	order := handedOrder(pf, preorderPositions(log))
+	order := reversedOrder(pf)
 	or.o.Op(fmt.Sprintf("init %s main", pkgSpec(pf, order)), labelsWithAnon(r))
 	or.o.Count("op_init")
 	if len(r.InitLabels) >= 2 {
@@ -372,36 +363,10 @@ func (or *oracle) initOp(j *Job) {
 	}
 }
 
-// preorderPositions extracts the order of first "Initializing <pkg>" lines.
-func preorderPositions(log string) map[string]int {
-	pos := map[string]int{}
-	n := 0
-	for _, ln := range strings.Split(log, "\n") {
-		if strings.HasPrefix(ln, "Initializing ") {
-			name := strings.TrimPrefix(ln, "Initializing ")
-			if _, ok := pos[name]; !ok {
-				pos[name] = n
-				n++
-			}
-		}
-	}
-	return pos
-}
-
-func handedOrder(pf map[string]*pkgFacts, pos map[string]int) map[string][]string {
-	order := map[string][]string{}
-	for name, p := range pf {
-		imps := append([]string{}, p.imports...)
-		sort.SliceStable(imps, func(a, b int) bool { return pos[imps[a]] < pos[imps[b]] })
-		order[name] = imps
-	}
-	return order
-}
-
-// histOp compiles a generated program k times on one (fresh, verbose)
-// instance and asks the Lean model of the compiler's cross-compilation state
-// (Initialized flags and Func.NumInstances of the cached packages) for the
-// init-block labels and function-instance labels of every compilation.
+// histOp compiles a generated program k times on one instance and asks the
+// Lean model of Compiler.compile (package table reset at the start of every
+// compilation) for the init-block labels and function-instance labels of every
+// compilation.
 func (or *oracle) histOp(j *Job, k int) {
 	if j.Gen == nil {
 		return
@@ -412,23 +377,17 @@ func (or *oracle) histOp(j *Job, k int) {
 		return
 	}
 	p := newParams(j)
-	p.Verbose = true
 	c := compiler.New(p)
 	var rs []*Res
-	var log0 string
 	for i := 0; i < k; i++ {
-		var r *Res
-		log := captureStdout(func() { r = compileOn(c, p, j) })
+		r := compileOn(c, p, j)
 		if r.Err != "" {
 			or.o.Count("hist_compile_error")
 			return
 		}
-		if i == 0 {
-			log0 = log
-		}
 		rs = append(rs, r)
 	}
-	order := handedOrder(pf, preorderPositions(log0))
+	order := reversedOrder(pf)
 	var want []string
 	for _, r := range rs {
 		want = append(want, "init="+plainList(r.InitLabels)+";fn="+plainList(r.FuncLabels))
@@ -630,9 +589,6 @@ func runOracle(cf *hxlib.CommonFlags, o *hxlib.Out) {
 			o.Count("programs_with_2plus_init_blocks")
 		}
 		sig := "c08-same-instance"
-		if j.Family == "alias-collision" {
-			sig = "c08-alias-collision"
-		}
 		for i := 1; i < len(same); i++ {
 			o.Count("comparisons_same_instance")
 			if what, class := relation(o1, same[i]); class != "equal" {
@@ -648,9 +604,6 @@ func runOracle(cf *hxlib.CommonFlags, o *hxlib.Out) {
 		or.histOp(j, k)
 		// (ii) fresh instances
 		sig = "c08-fresh-instance"
-		if j.Family == "alias-collision" {
-			sig = "c08-alias-collision"
-		}
 		nf := f
 		if j.Gen != nil || j.Family == "library" {
 			nf = f + 2
@@ -735,9 +688,6 @@ func runOracle(cf *hxlib.CommonFlags, o *hxlib.Out) {
 			}
 			o.Count("comparisons_cross_process")
 			sig := "c08-cross-process"
-			if j.Family == "alias-collision" {
-				sig = "c08-alias-collision"
-			}
 			if what, class := relation(first[ji], rs[ji]); class != "equal" {
 				tb := ""
 				if b, err := os.ReadFile(filepath.Join(work, fmt.Sprintf("child-%d", ci), fmt.Sprintf("%d.ssa", ji))); err == nil {
@@ -768,9 +718,6 @@ func rank(f failRec) int {
 	c := fmt.Sprint(f.detail["class"])
 	if strings.HasPrefix(c, "other") {
 		return 0
-	}
-	if f.sig == "c08-alias-collision" {
-		return 2
 	}
 	return 1
 }
